@@ -43,13 +43,15 @@ def rank(p):
 
 def setting(p, v):
     """registration arguments <<inMemory, idleSec, writeIntervalSec, maxFileSize>> of pattern p, version v.
+    v = 0 base; 1: the other swamp type and another idle timeout; 2: as base, only write interval / file
+    size differ (same as base for an in-memory pattern); 3: as base, only the idle timeout differs.
     In-memory registrations carry no filesystem settings (as the gateway sends them)."""
     i = rank(p)
-    mem = (i + v) % 2
-    idle = 10 + i + 20 * v
+    mem = (i + (1 if v == 1 else 0)) % 2
+    idle = 10 + i + (20 if v == 1 else 0) + (30 if v == 3 else 0)
     if mem:
         return [1, idle, 0, 0]
-    return [0, idle, 40 + i + 20 * v, 1000 + i + 100 * v]
+    return [0, idle, 40 + i + (20 if v == 2 else 0), 1000 + i + (100 if v == 2 else 0)]
 
 
 def matches(n, p):
@@ -73,7 +75,8 @@ def order_case(order, reps, suffix=None):
 
 
 def variation_suffix(P, rng, reps):
-    """re-registration with changed settings (type flips), with unchanged settings, deregistration"""
+    """re-registration with changed settings (type flip; only write interval / file size; only idle), with
+    unchanged settings, deregistration and registration again"""
     if not P:
         return []
     ops = []
@@ -81,6 +84,8 @@ def variation_suffix(P, rng, reps):
     ops += [reg(p, 1), look(reps), dict(op="restart"), look(reps)]
     q = rng.choice(P)
     ops += [reg(q, 1 if q == p else 0), look(reps)]           # unchanged re-registration
+    u = rng.choice(P)
+    ops += [reg(u, 0), reg(u, 2), look(reps), reg(u, 3), look(reps), dict(op="restart"), look(reps)]
     d = rng.choice(P)
     ops += [dict(op="dereg", p=d), look(reps), dict(op="restart"), look(reps)]
     ops += [reg(d, 2), look(reps)]
@@ -92,7 +97,7 @@ def random_history(rng, reps, length):
     for _ in range(length):
         x = rng.random()
         if x < 0.45:
-            ops.append(reg(rng.choice(ALLPAT), rng.randrange(3)))
+            ops.append(reg(rng.choice(ALLPAT), rng.randrange(4)))
         elif x < 0.55:
             ops.append(dict(op="dereg", p=rng.choice(ALLPAT)))
         elif x < 0.70:
@@ -103,11 +108,21 @@ def random_history(rng, reps, length):
     return ops
 
 
-def rejected_line(r):
-    for ln in r.out.splitlines():
-        if "TRACE_REJECTED_AT_LINE" in ln:
-            return ln.strip()[:700]
-    return ""
+def rejected_line(r, lines):
+    """(line number, logged event) of the first line no spec step explains"""
+    m = re.search(r'TRACE_REJECTED_AT_LINE",\s*(\d+)', r.out)
+    if not m:
+        return 0, None, "invariant %s" % r.violated
+    d = int(m.group(1))
+    e = json.loads(lines[d - 1]) if 0 < d <= len(lines) else None
+    txt = "line %d" % d
+    if e is not None:
+        if e["ev"] == "look":
+            multi = [x for x in e["res"] if len(x["obs"]) > 1]
+            txt += " case %s look %s" % (e.get("case"), json.dumps((multi or e["res"])[:2]))
+        else:
+            txt += " " + json.dumps(e)
+    return d, e, txt[:600]
 
 
 def run(ctx):
@@ -121,7 +136,7 @@ def run(ctx):
     binary = ctx.go_build("settings")
 
     # 1. the strict design satisfies the property; the as-built deviation does not (non-vacuity)
-    r = ctx.tlc("MC_Settings", cfg_text=mc_cfg(5 if thorough else 4, None), name="mc-strict", coverage=thorough, timeout=2400)
+    r = ctx.tlc("MC_Settings", cfg_text=mc_cfg(5 if thorough else 3, None), name="mc-strict", coverage=thorough, timeout=2400)
     if not r.ok:
         raise vlib.Inconclusive("strict Settings spec does not satisfy its own properties: %s %s" % (r.violated, r.error))
     ctx.extra["mc_strict"] = r.summary()
@@ -169,7 +184,7 @@ def run(ctx):
     ctx.extra["cases"] = ncases
 
     # chunks: whole groups, so that every order of one pattern set is validated against one memo
-    nchunks = 1 if ctx.replay else (6 if thorough else 2)
+    nchunks = 1 if ctx.replay else (3 if thorough else 1)
     chunks = [[] for _ in range(nchunks)]
     for i, gp in enumerate(groups):
         chunks[i % nchunks].append(gp)
@@ -235,22 +250,18 @@ def run(ctx):
         if ok:
             continue
         keep = os.path.join(ctx.replays, "trace-%d-%d.ndjson" % (ctx.seed, ci))
-        shutil.copy(tf, keep)
-        where = rejected_line(rs)
+        _, _, where = rejected_line(rs, lines)
         ok2, ra = ctx.validate_trace("Trace_Settings", "Trace_Settings", tf, dev=DEV, name="trace-%d-dev" % ci, timeout=2400)
         if ok2:
-            what = "real settings rejected by the strict spec, explained by map-order lookup (%s)" % where
-            ctx.deviation(FID, what, dict(kind="cases", cases=[c["ops"] for c in cases], trace=keep, witness=witness))
+            what = "real settings rejected by the strict spec (%s); the as-built spec with map-order lookup accepts the whole trace" % where
+            ctx.deviation(FID, what, dict(kind="cases", cases=[c["ops"] for c in cases][:50], witness=witness))
         else:
-            what = "recorded trace of the real settings rejected by the strict spec (%s) and by the as-built spec (%s)" % (
-                where, rejected_line(ra))
-            # keep the replay small: the case the as-built spec rejected
-            bad = None
-            m = re.search(r"case \|-> (\d+)", rejected_line(ra))
-            if m:
-                bad = int(m.group(1))
+            shutil.copy(tf, keep)
+            _, ev, where2 = rejected_line(ra, lines)
+            what = "recorded trace of the real settings rejected by the strict spec (%s) and by the as-built spec (%s)" % (where, where2)
+            bad = ev.get("case") if ev else None
             sel = [c["ops"] for c in cases if bad is None or c["id"] == bad]
-            ctx.deviation(None, what, dict(kind="cases", cases=sel, trace=keep))
+            ctx.deviation(None, what, dict(kind="cases", cases=sel, trace=keep, rejected=ev))
     ctx.extra.update(stats)
     if witness:
         ctx.extra["witness_multi_resolution"] = witness
